@@ -42,8 +42,9 @@ def write(mod, drv, agg, post, wall, n_viol, known_keys, inconclusive):
         pass
     except Exception as e:  # schema violation: still write, but say so loudly
         print('EVIDENCE-SCHEMA-PROBLEM %s: %s' % (drv.prop, str(e)[:300]))
-    os.makedirs(os.path.join(VERIF, 'evidence'), exist_ok=True)
-    path = os.path.join(VERIF, 'evidence', drv.prop + '.json')
+    evdir = os.environ.get('VERIF_EVIDENCE_DIR') or os.path.join(VERIF, 'evidence')
+    os.makedirs(evdir, exist_ok=True)
+    path = os.path.join(evdir, drv.prop + '.json')
     with open(path, 'w') as f:
         json.dump(ev, f, indent=1, sort_keys=True)
     return path
